@@ -127,28 +127,37 @@ fn reverse_cursive_minor_offset(
     direction: Direction,
     new_parent: usize,
 ) {
-    let chain = pos[i].attach_chain();
-    let attach_type = pos[i].attach_type();
-    if chain == 0 || attach_type & attach_type::CURSIVE == 0 {
-        return;
+    // Walk down the old chain first (iteratively: the chain can be as long as the buffer),
+    // then fix up the links from its far end back, as the recursive formulation does.
+    let mut chain_links = alloc::vec::Vec::new();
+    let mut i = i;
+    loop {
+        let chain = pos[i].attach_chain();
+        let attach_type = pos[i].attach_type();
+        if chain == 0 || attach_type & attach_type::CURSIVE == 0 {
+            break;
+        }
+
+        pos[i].set_attach_chain(0);
+
+        // Stop if we see new parent in the chain.
+        let j: usize = (i as isize + isize::from(chain)) as _;
+        if j == new_parent {
+            break;
+        }
+
+        chain_links.push((i, j, chain, attach_type));
+        i = j;
     }
 
-    pos[i].set_attach_chain(0);
+    while let Some((i, j, chain, attach_type)) = chain_links.pop() {
+        if direction.is_horizontal() {
+            pos[j].y_offset = -pos[i].y_offset;
+        } else {
+            pos[j].x_offset = -pos[i].x_offset;
+        }
 
-    // Stop if we see new parent in the chain.
-    let j = (i as isize + isize::from(chain)) as _;
-    if j == new_parent {
-        return;
+        pos[j].set_attach_chain(-chain);
+        pos[j].set_attach_type(attach_type);
     }
-
-    reverse_cursive_minor_offset(pos, j, direction, new_parent);
-
-    if direction.is_horizontal() {
-        pos[j].y_offset = -pos[i].y_offset;
-    } else {
-        pos[j].x_offset = -pos[i].x_offset;
-    }
-
-    pos[j].set_attach_chain(-chain);
-    pos[j].set_attach_type(attach_type);
 }
